@@ -1,6 +1,7 @@
 package schist
 
 import (
+	"encoding/json"
 	"fmt"
 	"sort"
 	"strings"
@@ -559,4 +560,389 @@ func stScenarioPartialPass(h *Hist, r *mon.Rand) *Call {
 func stScenarioOps() []OpDef {
 	sc := OpDef{Name: "storage.scenario.partial-pass-then-close", Tags: []string{"storage", "challenge", "close", "alloc", "C12", "C13", "C14", "C23"}, Build: stScenarioPartialPass}
 	return []OpDef{sc, sc}
+}
+
+// ---- second directed scenario: the blobbers of an allocation with data change their write price, then the allocation is updated ----
+//
+// An allocation over 2-4 blobbers gets data on some or all of them (funded challenge pool); after no time / seconds / hours / days
+// all, some or none of its blobbers lower or raise their write price (0.1x ... 3x, update_blobber_settings sent by the delegate
+// wallet); then the allocation is extended (owner or third party), grown, "shrunk", or one of its blobbers is replaced (with or
+// without an extension in the same request); finally it is cancelled, finalized after expiry, or left to the random operations.
+// An extension re-values every data-holding blobber at its new price over the new duration: tokens move write pool -> challenge
+// pool, challenge pool -> write pool, both ways in one request, or not at all. Every step is an ordinary transaction through
+// h.Submit; the monitors (C09 ledger, C12 pool equality) judge each of them.
+
+func init() {
+	for _, p := range []string{"C09", "C12"} {
+		RegisterScenario(Scenario{Prop: p, Name: "price-change-then-update-allocation", Every: 1, Fn: pxScenario})
+	}
+}
+
+func pxScenario(h *Hist, mons []Monitor) {
+	st := h.S.St
+	if st.mons == nil {
+		st.mons = mons
+	}
+	r := h.R.Fork("px-price-change-then-update-allocation")
+	st.NoHostile = true
+	defer func() { st.NoHostile = false }()
+	rounds := 2 + r.Intn(2)
+	for i := 0; i < rounds; i++ {
+		pxRound(h, r, i == rounds-1)
+		h.stNextBlock(r, 30)
+	}
+}
+
+func pxCount(h *Hist, k string) {
+	if run := h.Runs[h.Focus]; run != nil {
+		run.Count("px:"+k, 1)
+	}
+}
+
+// the delegate wallet the contract currently records for a blobber
+func pxDelegate(h *Hist, p *stProv) *world.Wallet {
+	if sp := h.stSP("blobber", p.W.ID); sp != nil {
+		if w := h.W.Wallets[sp.Settings.DelegateWallet]; w != nil {
+			return w
+		}
+	}
+	return p.Del
+}
+
+// update_blobber_settings carrying a new write price only (same shape as the "write-price" kind of stUpdateBlobber)
+func pxSetWritePrice(h *Hist, r *mon.Rand, p *stProv, wp uint64) *TxnObs {
+	in := map[string]interface{}{"id": p.W.ID, "terms": map[string]interface{}{"write_price": wp}}
+	c := stCall(h, r, "update_blobber_settings", pxDelegate(h, p), in, 0)
+	stProvMeta(c, p)
+	c.Meta["kind"], c.Meta["scenario"] = "write-price", "price-change-then-update"
+	return h.stInner(c)
+}
+
+func pxNewAlloc(h *Hist, r *mon.Rand) *stAlloc {
+	st := h.S.St
+	conf := h.stConf()
+	size := []int64{64 * stMB, 256 * stMB, stGB, 3 * stGB}[r.Intn(4)]
+	var usable []*stProv
+	for _, p := range stShuffled(r, st.live(st.Blobbers)) {
+		if h.stUsable(p, size) { // the largest per-blobber size any shard layout below can ask for
+			usable = append(usable, p)
+		}
+	}
+	n := 2 + r.Intn(3)
+	if n > len(usable) {
+		n = len(usable)
+	}
+	if n < 2 {
+		pxCount(h, "no-usable-blobbers")
+		return nil
+	}
+	d, par := n-1, 1
+	if n >= 3 && r.Chance(0.4) {
+		d, par = n-2, 2
+	}
+	chosen := usable[:n]
+	owner := h.stClient(r)
+	in := map[string]interface{}{
+		"data_shards": d, "parity_shards": par, "size": size,
+		"read_price_range":       map[string]uint64{"min": 0, "max": conf.MaxReadPrice},
+		"write_price_range":      map[string]uint64{"min": 0, "max": conf.MaxWritePrice},
+		"third_party_extendable": r.Chance(0.5),
+		"blobbers":               stIDs(chosen), "blobber_auth_tickets": h.stAuthTickets(chosen, owner.ID),
+	}
+	val := h.stCost(chosen, stBSize(size, d))*uint64(2+r.Intn(3)) + 1e9
+	c := stCall(h, r, "new_allocation_request", owner, in, val)
+	c.Meta["blobbers"], c.Meta["owner"], c.Meta["size"], c.Meta["scenario"] = stIDs(chosen), owner.ID, size, "price-change-then-update"
+	var a *stAlloc
+	c.After = func(h *Hist, o *TxnObs) {
+		if o.Outcome != "success" {
+			return
+		}
+		var out struct {
+			ID string `json:"id"`
+		}
+		id := o.Txn.Hash
+		if json.Unmarshal([]byte(o.Txn.TransactionOutput), &out) == nil && out.ID != "" {
+			id = out.ID
+		}
+		o.Call.Meta["alloc"] = id
+		a = h.stRegisterAlloc(id, owner, false)
+	}
+	h.stInner(c)
+	return a
+}
+
+// pxDirection tells which way the blobbers' outstanding challenge values moved between two views of an allocation
+func pxDirection(pre, post *stAllocView) string {
+	up, down := false, false
+	for _, b := range post.BlobberAllocs {
+		if p := pre.ba(b.BlobberID); p != nil {
+			up = up || b.CPIntegral > p.CPIntegral
+			down = down || b.CPIntegral < p.CPIntegral
+		}
+	}
+	switch {
+	case up && down:
+		return "both-ways"
+	case up:
+		return "to-challenge-pool"
+	case down:
+		return "back-to-write-pool"
+	}
+	return "unchanged"
+}
+
+func pxRound(h *Hist, r *mon.Rand, last bool) {
+	st := h.S.St
+	a := pxNewAlloc(h, r)
+	if a == nil {
+		return
+	}
+	switch r.Intn(3) {
+	case 0: // data arrives in the block of the allocation
+	default:
+		h.stNextBlock(r, 30)
+	}
+	v := h.stGetAlloc(a.ID)
+	if v == nil || h.W.Wallets[v.Owner] == nil {
+		return
+	}
+
+	// (1) data on all or some of the blobbers
+	n := len(v.BlobberAllocs)
+	holders := n
+	if r.Chance(0.5) {
+		holders = 1 + r.Intn(n)
+	}
+	for i, ba := range v.BlobberAllocs {
+		if i >= holders {
+			break
+		}
+		size := []int64{256 * stKB, stMB, 16 * stMB, ba.Size / 4, ba.Size / 2}[r.Intn(5)]
+		if c := stCommitOn(h, r, a, v, ba, size); c != nil {
+			c.Meta["scenario"] = "price-change-then-update"
+			h.stInner(c)
+		}
+	}
+	steps := 1
+	if r.Chance(0.35) {
+		steps = 2
+	}
+	for step := 0; step < steps; step++ {
+		// (2) time passes: nothing, seconds, minutes, hours, days (the time unit is 30 days unless the settings were changed)
+		wait := []string{"none", "seconds", "seconds", "minutes", "hours", "days"}[r.Intn(6)]
+		switch wait {
+		case "seconds":
+			h.stNextBlock(r, 10)
+		case "minutes":
+			h.EndBlock()
+			h.W.Advance(time.Duration(1+r.Intn(120)) * time.Minute)
+		case "hours":
+			h.EndBlock()
+			h.W.Advance(time.Duration(1+r.Intn(48)) * time.Hour)
+		case "days":
+			h.EndBlock()
+			h.W.Advance(time.Duration(1+r.Intn(12)) * 24 * time.Hour)
+		}
+		if v = h.stGetAlloc(a.ID); v == nil || v.Expiration <= int64(h.W.Now)+60 {
+			return
+		}
+
+		// (3) write prices move
+		conf := h.stConf()
+		family := []string{"all-lower", "all-lower", "holders-lower", "some-lower", "none", "all-raise", "some-raise", "mixed", "holders-lower-others-raise", "holders-raise-others-lower"}[r.Intn(10)]
+		lower, raise := []float64{0.1, 0.2, 0.25, 0.5, 0.75, 0.9}, []float64{1.1, 1.5, 2, 3}
+		changed := 0
+		for _, ba := range v.BlobberAllocs {
+			p := st.blobberByID(ba.BlobberID)
+			if p == nil || p.Dead != "" {
+				continue
+			}
+			holder := ba.Stats != nil && ba.Stats.UsedSize > 0
+			f := 1.0
+			lo, hi := lower[r.Intn(len(lower))], raise[r.Intn(len(raise))]
+			switch family {
+			case "all-lower":
+				f = lo
+			case "holders-lower":
+				if holder {
+					f = lo
+				}
+			case "some-lower":
+				if r.Chance(0.5) {
+					f = lo
+				}
+			case "all-raise":
+				f = hi
+			case "some-raise":
+				if r.Chance(0.5) {
+					f = hi
+				}
+			case "mixed":
+				f = []float64{lo, hi, 1}[r.Intn(3)]
+			case "holders-lower-others-raise":
+				if f = hi; holder {
+					f = lo
+				}
+			case "holders-raise-others-lower":
+				if f = lo; holder {
+					f = hi
+				}
+			}
+			old := h.stTermsOf(p).WritePrice
+			wp := uint64(float64(old) * f)
+			if wp < conf.MinWritePrice {
+				wp = conf.MinWritePrice
+			}
+			if wp > conf.MaxWritePrice {
+				wp = conf.MaxWritePrice
+			}
+			if wp == old {
+				continue
+			}
+			if o := pxSetWritePrice(h, r, p, wp); o.Outcome == "success" {
+				changed++
+				dir := "lowered"
+				if wp > old {
+					dir = "raised"
+				}
+				pxCount(h, fmt.Sprintf("price-%s|holder=%v", dir, holder))
+			}
+		}
+		if r.Chance(0.7) {
+			h.stNextBlock(r, 10)
+		}
+
+		// (4) the allocation is updated
+		if v = h.stGetAlloc(a.ID); v == nil {
+			return
+		}
+		owner := h.W.Wallets[v.Owner]
+		if owner == nil {
+			return
+		}
+		inAlloc := map[string]bool{}
+		var members []*stProv
+		for _, b := range v.BlobberAllocs {
+			inAlloc[b.BlobberID] = true
+			if p := st.blobberByID(b.BlobberID); p != nil {
+				members = append(members, p)
+			}
+		}
+		bs := stBSize(v.Size, v.DataShards)
+		kind := []string{"extend", "extend", "extend", "third-party-extend", "third-party-extend", "grow", "extend-and-grow", "shrink", "replace", "replace-holder", "replace-and-extend"}[r.Intn(11)]
+		in := map[string]interface{}{"id": a.ID}
+		from := owner
+		val := h.stCost(members, bs)*2 + 1e9
+		var np *stProv
+		if kind == "replace" || kind == "replace-holder" || kind == "replace-and-extend" {
+			for _, p := range h.stUsableFirst(r, st.live(st.Blobbers), bs) {
+				if !inAlloc[p.W.ID] && h.stUsable(p, bs) {
+					np = p
+					break
+				}
+			}
+			if np == nil {
+				kind = "extend"
+			}
+		}
+		switch kind {
+		case "extend":
+			in["extend"] = true
+		case "third-party-extend":
+			if !v.ThirdPartyExtendable && r.Chance(0.8) {
+				c := stCall(h, r, "update_allocation_request", owner, map[string]interface{}{"id": a.ID, "set_third_party_extendable": true}, 0)
+				c.Meta["alloc"], c.Meta["kind"], c.Meta["scenario"] = a.ID, "third-party-flag", "price-change-then-update"
+				h.stInner(c)
+			}
+			for _, cl := range h.W.Clients {
+				if cl.ID != v.Owner {
+					from = cl
+					if r.Chance(0.4) {
+						break
+					}
+				}
+			}
+			in["extend"] = true
+		case "grow", "extend-and-grow":
+			inc := []int64{1, stMB, v.Size / 2, v.Size}[r.Intn(4)]
+			in["size"] = inc
+			if kind == "extend-and-grow" {
+				in["extend"] = true
+			}
+			val = h.stCost(members, stBSize(v.Size+inc, v.DataShards))*2 + 1e9
+		case "shrink":
+			in["size"] = -[]int64{1, stMB, v.Size / 2}[r.Intn(3)] // the contract does not reduce allocations
+			if r.Chance(0.5) {
+				in["extend"] = true
+			}
+		case "replace", "replace-holder", "replace-and-extend":
+			rm := v.BlobberAllocs[r.Intn(len(v.BlobberAllocs))]
+			for _, b := range v.BlobberAllocs {
+				if kind == "replace-holder" && b.Stats != nil && b.Stats.UsedSize > 0 {
+					rm = b
+				}
+			}
+			in["add_blobber_id"], in["remove_blobber_id"] = np.W.ID, rm.BlobberID
+			in["add_blobber_auth_ticket"] = h.stAuthTickets([]*stProv{np}, v.Owner)[0]
+			if kind == "replace-and-extend" {
+				in["extend"] = true
+			}
+			val += h.stCost([]*stProv{np}, bs) * 2
+		}
+		if r.Chance(0.3) {
+			val = 0 // what is locked already has to do
+		}
+		c := stCall(h, r, "update_allocation_request", from, in, val)
+		c.Meta["alloc"], c.Meta["kind"], c.Meta["scenario"], c.Meta["variant"] = a.ID, kind, "price-change-then-update", family
+		if np != nil {
+			c.Meta["blobber"], c.Meta["removed_blobber"] = np.W.ID, in["remove_blobber_id"]
+		}
+		o := h.stInner(c)
+		dir := "n/a"
+		if post := h.stGetAlloc(a.ID); post != nil && o.Outcome == "success" {
+			dir = pxDirection(v, post)
+		}
+		key := fmt.Sprintf("update:%s|%s|%s|challenge-values=%s", family, kind, o.Outcome, dir)
+		pxCount(h, key)
+		pxCount(h, "challenge-values:"+dir)
+		if run := h.Runs[h.Focus]; run != nil {
+			run.Distinct("px|" + key + "|wait=" + wait)
+		}
+		fmt.Printf("SCENARIO-STEP %s price-change-then-update family=%s changed=%d wait=%s update=%s outcome=%s challenge-values=%s\n", h.ID, family, changed, wait, kind, o.Outcome, dir)
+		h.stNextBlock(r, 30)
+	}
+
+	// (5) close
+	v = h.stGetAlloc(a.ID)
+	if v == nil {
+		return
+	}
+	owner := h.W.Wallets[v.Owner]
+	if owner == nil {
+		return
+	}
+	closing := []string{"cancel", "cancel", "cancel", "finalize", "leave-open"}[r.Intn(5)]
+	if closing == "finalize" && (!last || st.ScenJumps >= 2) {
+		closing = "cancel"
+	}
+	var c *Call
+	switch closing {
+	case "cancel":
+		c = stCall(h, r, "cancel_allocation", owner, map[string]string{"allocation_id": a.ID}, 0)
+	case "finalize":
+		st.ScenJumps++
+		st.SinceJump = 0
+		h.EndBlock()
+		d := v.Expiration - int64(h.W.Now) + int64(1+r.Intn(3600))
+		h.W.Advance(time.Duration(d) * time.Second)
+		fmt.Printf("OP %s {\"op\":\"storage.time-jump\",\"seconds\":%d,\"alloc\":%q,\"scenario\":true}\n", h.ID, d, a.ID)
+		c = stCall(h, r, "finalize_allocation", owner, map[string]string{"allocation_id": a.ID}, 0)
+	default:
+		pxCount(h, "close:leave-open")
+		return
+	}
+	c.Meta["alloc"], c.Meta["closes"], c.Meta["scenario"] = a.ID, closing, "price-change-then-update"
+	c.After = stCloseAfter(a, closing)
+	o := h.stInner(c)
+	pxCount(h, "close:"+closing+"|"+o.Outcome)
 }
